@@ -50,9 +50,11 @@ def handle (j : Json) : Except String Json := do
   | .ok (Json.str "cards") =>
     let b := blocks limit (lines.map (·.toList))
     let cj (c : Card) : Json := Json.mkObj [("words", ss (words c.text)), ("dollar", ss c.dollar), ("ccomments", ss c.ccomments)]
+    -- cell cards: `( ) : #` are words by themselves (geometry punctuation)
+    let cg (c : Card) : Json := Json.mkObj [("words", ss (wordsAux true c.text [] [])), ("dollar", ss c.dollar), ("ccomments", ss c.ccomments)]
     return Json.mkObj [("message", ss b.message), ("title", s b.title),
       ("head", ss b.head), ("surf_head", ss b.surfHead), ("data_head", ss b.dataHead),
-      ("cells", Json.arr (b.cells.map cj).toArray), ("surfaces", Json.arr (b.surfaces.map cj).toArray),
+      ("cells", Json.arr (b.cells.map cg).toArray), ("surfaces", Json.arr (b.surfaces.map cj).toArray),
       ("data", Json.arr (b.data.map cj).toArray)]
   | .ok (Json.str "number") =>
     return Json.arr ((lines.map (fun l => match parseNumber l.toList with | some q => qJ q | none => Json.null)).toArray)
